@@ -195,6 +195,16 @@ def vstepX (isSp : Char → Bool) (max : Nat) (s : VSt) (count : Option Nat) (cm
 
 /-! ### `Document.cut_selection` as an API call, followed by the paste-back at the cut cursor -/
 
+/-- `list(Document.selection_ranges())` as Python prints it: the bounds are `int`s — the upper bound of
+    a LINES range is `-1` for the empty text in Emacs mode (`len(text) - 1`); everywhere else they
+    are the natural numbers of `selectionRanges` -/
+def selectionRangesI (t : Text) (cur orig : Nat) (ty : SelType) (vi : Bool) : List (Int × Int) :=
+  match ty with
+  | .lines =>
+    let lo := min cur orig
+    [(((lo - col { text := t, cur := lo } : Nat) : Int), linesEndI t (max cur orig) vi)]
+  | _ => (selectionRanges t cur orig ty vi).map fun p => ((p.1 : Int), (p.2 : Int))
+
 def cutApi (t : Text) (cur orig : Nat) (ty : SelType) (vi : Bool) : Buf × Clip :=
   cutSelection t cur orig ty vi
 
